@@ -175,11 +175,11 @@ LEMMA = {'enforce': None, 'exec': True, 'defs': ['-DVS_EXEC'], 'loops': ('unwind
 PROOFS = [
 ] + [
     # one run per directive and per delta in {0, 7} (constants: delta 0 is the boundary case, the numeral <-> value round trip is libc)
-    dict(LEMMA, name='lemma_cachecontrol_%d_%d' % (d, dl), lemma='lemma_cachecontrol',
+    dict(LEMMA, name='lemma_cachecontrol_%d_%d' % (d, dl), lemma='lemma_cachecontrol', replay={'driver': 'hdr_rt', 'argv': ['cachecontrol', str(d), str(dl)]},
          harness='#ifdef VS_EXEC\nvoid h_lemma_cachecontrol_%d_%d(void) { lemma_cachecontrol(%d, %d); }\n#endif\n' % (d, dl, d, dl)) for d in range(12) for dl in (0, 7)
 ] + [
-    dict(LEMMA, name='lemma_connection', lemma='lemma_connection', harness='#ifdef VS_EXEC\nvoid h_lemma_connection(void) { int c; lemma_connection(c); }\n#endif\n'),
-    dict(LEMMA, name='lemma_encoding', lemma='lemma_encoding', harness='#ifdef VS_EXEC\nvoid h_lemma_encoding(void) { int e; lemma_encoding(e); }\n#endif\n'),
+    dict(LEMMA, name='lemma_connection', lemma='lemma_connection', replay={'driver': 'hdr_rt', 'argv': ['connection', '$control']}, harness='#ifdef VS_EXEC\nvoid h_lemma_connection(void) { int c; lemma_connection(c); }\n#endif\n'),
+    dict(LEMMA, name='lemma_encoding', lemma='lemma_encoding', replay={'driver': 'hdr_rt', 'argv': ['encoding', '$e']}, harness='#ifdef VS_EXEC\nvoid h_lemma_encoding(void) { int e; lemma_encoding(e); }\n#endif\n'),
     {'name': 'CacheControl_parseRaw', 'enforce': 'Pistache_Http_Header_CacheControl_parseRaw', 'loops': 'contracts', 'props': ['C16', 'C03'], 'cost': 20, 'defs': ['-DVS_LIGHT'],
      'replace': [ADV, 'Pistache_match_raw'],
      'harness': 'void h_CacheControl_parseRaw(void) { struct Pistache_Http_Header_CacheControl *a0; char *a1; size_t a2; Pistache_Http_Header_CacheControl_parseRaw(a0, a1, a2); }\n'},
